@@ -546,9 +546,13 @@ static void gen_c12(G &g) {
 // ------------------------------------------------------------------ C20 (forced metadata checks)
 static void gen_c20(G &g) {
     Cfg c = any_coded_shape(g.world); c.ct = 2;
+    bool special_crc = g.world.chance(1, 16);   // the data fragment's stored CRC-32 is exactly 0 / 0xffffffff
+    if (special_crc) { c = Cfg(); c.be = BE_RS; c.k = 1; c.m = (int) g.world.range(1, 3); c.hd = c.m; c.ct = 2; }
     g.ops.push(create_op(0, c));
     if (g.plan.chance(1, 3)) { Json p0 = put_op(g, 0, 0, c); g.ops.push(p0); }  // a previous version, so STALE/TORN have old bytes
-    Json p = put_op(g, 0, 0, c); if (g.ops.size() > 1) p.set("len", g.ops.a.back()["len"].num()); g.ops.push(p);
+    Json p = put_op(g, 0, 0, c); if (g.ops.size() > 1) p.set("len", g.ops.a.back()["len"].num());
+    if (special_crc) p.set("len", (i64) (2 * g.data.range(4, 300))).set("pat", g.data.chance(1, 2) ? 5 : 6);
+    g.ops.push(p);
     int n = c.n(), tol = tolerance(c);
     int rounds = (int) g.plan.range(2, 5);
     for (int i = 0; i < rounds; i++) {
@@ -583,7 +587,8 @@ static void gen_c20(G &g) {
                 else if (z == 3) fx.push(fx1("legacyseal"));
                 else fx.push(fx_field("mismatch", 0, 2));
             }
-            for (auto &e : dl.a) if (e["dev"].in() == sv[q]) e.set("fx", fx);
+            bool first_only = r.chance(1, 2);   // with duplicated delivery: the damaged copy comes first, a good one later
+            for (auto &e : dl.a) if (e["dev"].in() == sv[q]) { e.set("fx", fx); e.erase("same"); if (first_only) break; }
         }
         Json j = mk("GET"); j.set("obj", 0).set("slot", 0).set("force", r.chance(9, 10) ? 1 : 0).set("dl", dl);
         g.ops.push(j);
@@ -598,6 +603,7 @@ Json gen_plan(const std::string &prop, const std::string &tier, u64 base_seed, u
     Json plan = Json::obj();
     plan.set("prop", prop).set("tier", tier).set("base_seed", (i64) base_seed).set("index", (i64) index).set("run_seed", hex64(rs));
     plan.set("xor", (index & 1) ? "portable" : "sse2");
+    if ((index & 3) == 2) plan.set("stack_kb", 768);   // a quarter of the runs execute on a small stack (callers with small thread stacks exist)
     { Json ik = Json::obj(); ik.set("clobber", (int) g.world.below(2)).set("layout", (int) g.world.below(2)); plan.set("isal", ik); }   // stub behaviour for this run
     if (prop == "C01" || prop == "C03") gen_roundtrip(g, false);
     else if (prop == "C19") { if (index % 4 == 3) gen_c06(g, true); else gen_roundtrip(g, true); }
